@@ -12,6 +12,9 @@ open CoapVerif CoapVerif.Model.Lifecycle CoapVerif.Generated.BlockingWaits
 def boundNs : Int := 1000000   -- 1 ms of virtual time: nothing in the library may need a timer to notice cancellation / close
 def boundStalledNs : Int := 500000000   -- the `stalled` cases run in real time (see harness): half a second
 
+/-- interruption points whose cases run on real sockets / in real time -/
+def realTime (point : String) : Bool := point == "stalled" || point == "live" || point.startsWith "k"
+
 def judgeLine (line : String) : String :=
   match line.splitOn " | " with
   | [inp, obs] =>
@@ -20,8 +23,8 @@ def judgeLine (line : String) : String :=
       match parseInt? n with
       | some n =>
         if r != "1" then "violates the call did not return after its context ended / the connection was closed"
-        else if n > (if point == "stalled" then boundStalledNs else boundNs) then
-          s!"violates the call returned only {n} ns after the cause (bound {if point == "stalled" then boundStalledNs else boundNs} ns)"
+        else if n > (if realTime point then boundStalledNs else boundNs) then
+          s!"violates the call returned only {n} ns after the cause (bound {if realTime point then boundStalledNs else boundNs} ns)"
         else if p != "0" then "violates Close panicked"
         else if d != "1" then "violates the done signal was not completed by Close"
         else if a != "1" || b != "1" then s!"violates on-close callbacks ran {a} and {b} times instead of exactly once"
